@@ -74,6 +74,20 @@ def r1_writers(L, repo):
         L.ob("C12.R1", m.rel, q, "mutation of the clock link list `%s`" % canon(c)[:50],
              "only Transceiver.power_event_handler", sorted(own), own <= {"Transceiver.power_event_handler"}, c.lineno)
     L.floor("C12.R1", "clck_links mutations", len(muts), 2)
+    # plain tuning state: what RXTUNE / TXTUNE said, nothing else (a frequency resolved from the hopping sequence that
+    # leaks into it survives POWEROFF: the transceiver stays "tuned" and the next POWERON is not refused)
+    n_tune = 0
+    for m in repo.tk_modules():
+        for a_ in ("_rx_freq", "_tx_freq"):
+            for n, kind in attr_accesses(m.tree, a_):
+                if kind == "load":
+                    continue
+                n_tune += 1
+                own = owners(m, n)
+                L.ob("C12.R1", m.rel, qualname(n), "writer of the plain tuning state `%s`" % canon(n),
+                     "only Transceiver.__init__ and the RXTUNE / TXTUNE handler (CTRLInterfaceTRX.parse_cmd)", sorted(own),
+                     own <= {"Transceiver.__init__", "CTRLInterfaceTRX.parse_cmd"}, n.lineno)
+    L.floor("C12.R1", "writers of the plain tuning state", n_tune, 4)
     # callers of power_event_handler
     n_call = 0
     for m in repo.tk_modules():
@@ -191,7 +205,65 @@ def r2_propagation(L, repo):
     return loop
 
 
-def r3_clock_table(L, repo):
+def _r3_fold(L, repo):
+    """Clock section of power_event_handler (everything from the first statement that mentions the clock generator)
+    folded over its complete decision space: has a generator or not x own running state x own link in the list or
+    not x another link in the list or not x generator running or not.  Required: the own link is in the list afterwards
+    iff running (other links untouched), then start iff the generator is idle and the UPDATED list is not empty, stop
+    iff it runs and the list is empty; nothing else happens to the generator.  -> number of rows, None = does not fold"""
+    from consteval import Ev, Unknown, Raised, Opaque
+    import itertools
+    ci, fd = repo.need_method("transceiver", "Transceiver", "power_event_handler")
+    fn = "Transceiver.power_event_handler"
+    first = next((i for i, st in enumerate(fd.body) if "clck_gen" in canon(st)), None)
+    if first is None:
+        return None
+    body = fd.body[first:]
+    P = params(fd)[1]
+    rows = []
+    for has_gen, running, linked, other, gen_running in itertools.product((False, True), repeat=5):
+        if not has_gen and (linked or other or gen_running):
+            continue
+        links = (["IF"] if linked else []) + (["OTHER"] if other else [])
+        acts = []
+        env = {P: running, "self.running": running, "self.clck_if": "IF",
+               "self.clck_gen": Opaque("clck_gen") if has_gen else None}
+        if has_gen:
+            env["self.clck_gen.clck_links"] = links
+            env["self.clck_gen.running"] = gen_running
+        e = Ev(repo, ci.mod, env=env, self_cls=ci)
+        e.ignore_calls = ("log.", "logging.")
+        e.hooks = {"self.clck_gen.start": lambda a: acts.append("start"), "self.clck_gen.stop": lambda a: acts.append("stop")}
+        try:
+            r = e.run_block(body)
+        except (Unknown, Raised):
+            return None
+        if isinstance(r, tuple) and r[1] is not None:
+            return None
+        want_links = ([x for x in links if x != "IF"] + ["IF"]) if running else [x for x in links if x != "IF"]
+        want_acts = []
+        if has_gen:
+            if not gen_running and want_links:
+                want_acts = ["start"]
+            elif gen_running and not want_links:
+                want_acts = ["stop"]
+        rows.append((has_gen, running, linked, other, gen_running, sorted(links) if has_gen else None, acts,
+                     sorted(want_links) if has_gen else None, want_acts))
+    for has_gen, running, linked, other, gen_running, got_links, acts, want_links, want_acts in rows:
+        L.require("C12.R3", F, fn, "clock links and generator after a power event [has generator=%d running=%d own link listed=%d "
+                  "another link listed=%d generator running=%d]" % (has_gen, running, linked, other, gen_running),
+                  (want_links, want_acts), (got_links, acts), line=fd.lineno)
+    return len(rows)
+
+
+def r3_clock_table(L, repo, force_shape=False):
+    if not force_shape:
+        n_ = _r3_fold(L, repo)
+        if n_ is not None:
+            L.floor("C12.R3", "decision-space rows of the clock section (fold)", n_, 18)
+            L.extra["c12_r3_fold"] = n_
+            L.structural("C12.R3 decision table of the clock section over the handler's branch atoms", r3_clock_table, L, repo, True)
+            return
     ci, fd = repo.need_method("transceiver", "Transceiver", "power_event_handler")
     fn = "Transceiver.power_event_handler"
     subst = deep_subst(fd)
@@ -297,7 +369,41 @@ def r3b_clckgen_running(L, repo):
         L.require("C12.R3", FC, "CLCKGen.running", "running iff a thread exists and is alive [no_thread=%d alive=%d%s]" % (a[A_T], a[A_L], extra),
                   want, got)
     ci, stop = repo.need_method("clck_gen", "CLCKGen", "stop")
+    if _r3b_fold_stop(L, repo, ci, stop, FC):
+        L.structural("C12.R3 decision table of CLCKGen.stop over its branch atoms", _r3b_stop_table, L, repo, ci, stop, FC, A_T)
+    else:
+        _r3b_stop_table(L, repo, ci, stop, FC, A_T)
 
+
+def _r3b_fold_stop(L, repo, ci, stop, FC):
+    """stop() folded for its two states (no thread / a thread other than the caller's): without a thread nothing
+    happens; with one the breaker is set, the thread joined, then the breaker cleared, and the thread is forgotten.
+    The calling thread is a thread of its own (`threading.current_thread()` is never the generator's thread on the
+    paths that may call stop(): C12.R10 / the escape analysis own that question)."""
+    from consteval import Ev, Unknown, Raised, Opaque
+    rows = []
+    for has_thread in (False, True):
+        acts = []
+        env = {"self._thread": Opaque("clock thread") if has_thread else None, "self._breaker": Opaque("breaker")}
+        e = Ev(repo, ci.mod, env=env, self_cls=ci)
+        e.ignore_calls = ("log.", "logging.")
+        e.hooks = {"self._breaker.set": lambda a: acts.append("set"), "self._breaker.clear": lambda a: acts.append("clear"),
+                   "self._thread.join": lambda a: acts.append("join" if not a else "join(timeout)"),
+                   "self._thread.is_alive": lambda a: False,
+                   "threading.current_thread": lambda a: Opaque("calling thread")}
+        try:
+            r = e.run_block(stop.body)
+        except (Unknown, Raised):
+            return False
+        rows.append((has_thread, acts, e.env.get("self._thread")))
+    for has_thread, acts, left in rows:
+        L.require("C12.R3", FC, "CLCKGen.stop", "stop() %s" % ("with a clock thread: breaker set, thread joined, breaker cleared - in this order - and the thread forgotten"
+                                                           if has_thread else "without a thread does nothing"),
+                  (["set", "join", "clear"], None) if has_thread else ([], None), (acts, left), line=stop.lineno)
+    return True
+
+
+def _r3b_stop_table(L, repo, ci, stop, FC, A_T):
     def evs(st):
         if isinstance(st, ast.Expr) and isinstance(st.value, ast.Call):
             t = canon(st.value)
@@ -977,3 +1083,5 @@ def run(L, tier):
     L.stage(r9_served, L, repo)
     from pyutil import instance_state
     L.stage(instance_state, L, repo, "C12.R8", "transceiver", "Transceiver", "each transceiver manages its own children / queue")
+    from pyutil import lock_join_order
+    L.stage(lock_join_order, L, repo, "C12.R10")
